@@ -48,8 +48,8 @@ pub(crate) fn encode_bytes<B: AsRef<[u8]> + ?Sized, W: Write>(
     mut writer: W,
 ) -> AvroResult<usize> {
     let bytes = s.as_ref();
-    encode_long(bytes.len() as i64, &mut writer)?;
-    write_all_bytes(writer, bytes)
+    let len_bytes = encode_long(bytes.len() as i64, &mut writer)?;
+    Ok(len_bytes + write_all_bytes(writer, bytes)?)
 }
 
 /// Write all of `bytes` to the writer, returning the number of bytes written.
@@ -211,8 +211,10 @@ pub(crate) fn encode_internal<W: Write, S: Borrow<Schema>>(
                     .schemas
                     .get(*idx as usize)
                     .expect("Invalid Union validation occurred");
-                encode_long(*idx as i64, &mut *writer)?;
-                encode_internal(item, inner_schema, names, enclosing_namespace, &mut *writer)
+                let idx_bytes = encode_long(*idx as i64, &mut *writer)?;
+                let item_bytes =
+                    encode_internal(item, inner_schema, names, enclosing_namespace, &mut *writer)?;
+                Ok(idx_bytes + item_bytes)
             } else {
                 error!("invalid schema type for Union: {schema:?}");
                 Err(Details::EncodeValueAsSchemaError {
@@ -224,10 +226,11 @@ pub(crate) fn encode_internal<W: Write, S: Borrow<Schema>>(
         }
         Value::Array(items) => {
             if let Schema::Array(ref inner) = *schema {
+                let mut written_bytes = 0;
                 if !items.is_empty() {
-                    encode_long(items.len() as i64, &mut *writer)?;
+                    written_bytes += encode_long(items.len() as i64, &mut *writer)?;
                     for item in items.iter() {
-                        encode_internal(
+                        written_bytes += encode_internal(
                             item,
                             &inner.items,
                             names,
@@ -236,7 +239,7 @@ pub(crate) fn encode_internal<W: Write, S: Borrow<Schema>>(
                         )?;
                     }
                 }
-                write_all_bytes(&mut *writer, &[0u8])
+                Ok(written_bytes + write_all_bytes(&mut *writer, &[0u8])?)
             } else {
                 error!("invalid schema type for Array: {schema:?}");
                 Err(Details::EncodeValueAsSchemaError {
@@ -248,11 +251,12 @@ pub(crate) fn encode_internal<W: Write, S: Borrow<Schema>>(
         }
         Value::Map(items) => {
             if let Schema::Map(ref inner) = *schema {
+                let mut written_bytes = 0;
                 if !items.is_empty() {
-                    encode_long(items.len() as i64, &mut *writer)?;
+                    written_bytes += encode_long(items.len() as i64, &mut *writer)?;
                     for (key, value) in items {
-                        encode_bytes(key, &mut *writer)?;
-                        encode_internal(
+                        written_bytes += encode_bytes(key, &mut *writer)?;
+                        written_bytes += encode_internal(
                             value,
                             &inner.types,
                             names,
@@ -261,7 +265,7 @@ pub(crate) fn encode_internal<W: Write, S: Borrow<Schema>>(
                         )?;
                     }
                 }
-                write_all_bytes(&mut *writer, &[0u8])
+                Ok(written_bytes + write_all_bytes(&mut *writer, &[0u8])?)
             } else {
                 error!("invalid schema type for Map: {schema:?}");
                 Err(Details::EncodeValueAsSchemaError {
